@@ -4,6 +4,7 @@
 package explore
 
 import (
+	"syscall"
 	"fmt"
 	"os"
 	"runtime"
@@ -103,6 +104,94 @@ type Config struct {
 	MaxExec  int64         // cap (0 = none); hitting it is reported, never silent
 	Deadline time.Duration // cap (0 = none)
 	Serial   bool          // run bodies one at a time (bodies that need the whole process)
+	// StuckAfter/OnStuck: livelock detection. A body that has not returned after StuckAfter of real time is handed to
+	// OnStuck together with the CPU time the process burnt meanwhile (a busy loop burns CPU, a starved machine or a
+	// harness deadlock does not). The stuck goroutine cannot be ended, so OnStuck must finish the run and exit the process.
+	StuckAfter time.Duration
+	OnStuck    func(c *Ctx, waited, cpu time.Duration)
+}
+
+// Watch starts the livelock monitor for one execution; close the returned channel when the body has returned.
+func Watch(c *Ctx, after time.Duration, onStuck func(c *Ctx, waited, cpu time.Duration)) chan struct{} {
+	finished := make(chan struct{})
+	go func() {
+		t0, cpu0 := time.Now(), processCPU()
+		tm := time.NewTimer(after)
+		defer tm.Stop()
+		select {
+		case <-finished:
+		case <-tm.C:
+			onStuck(c, time.Since(t0), processCPU()-cpu0)
+		}
+	}()
+	return finished
+}
+
+// BusyGoroutine samples the goroutine states of this process: it reports true when in every one of the samples some
+// goroutine other than the caller is running or runnable inside the same function (a busy loop never blocks; a
+// deadlocked or merely slow execution shows blocked goroutines or moves on). where = the top frames of that goroutine.
+func BusyGoroutine(samples int, gap time.Duration) (busy bool, where string) {
+	common := map[string]int{}
+	var firstWhere = map[string]string{}
+	buf := make([]byte, 4<<20)
+	for i := 0; i < samples; i++ {
+		if i > 0 {
+			time.Sleep(gap)
+		}
+		n := runtime.Stack(buf, true)
+		seen := map[string]bool{}
+		for _, g := range strings.Split(string(buf[:n]), "\n\n") {
+			lines := strings.Split(g, "\n")
+			if len(lines) < 3 || !strings.HasPrefix(lines[0], "goroutine ") {
+				continue
+			}
+			hdr := lines[0]
+			if !strings.Contains(hdr, "[running") && !strings.Contains(hdr, "[runnable") {
+				continue
+			}
+			if strings.Contains(g, "explore.BusyGoroutine") {
+				continue
+			}
+			// key: goroutine id + the outermost non-runtime frames (stable while it spins in one loop)
+			id := strings.Fields(hdr)[1]
+			var fr []string
+			for _, l := range lines[1:] {
+				if strings.HasPrefix(l, "\t") || strings.HasPrefix(l, "runtime.") || strings.HasPrefix(l, "created by") {
+					continue
+				}
+				if k := strings.LastIndex(l, "("); k > 0 {
+					l = l[:k]
+				}
+				fr = append(fr, l)
+			}
+			if len(fr) == 0 {
+				continue
+			}
+			key := id + " " + fr[len(fr)-1]
+			if !seen[key] {
+				seen[key] = true
+				common[key]++
+				if len(fr) > 6 {
+					fr = fr[:6]
+				}
+				firstWhere[key] = strings.Join(fr, " <- ")
+			}
+		}
+	}
+	for k, v := range common {
+		if v == samples {
+			return true, firstWhere[k]
+		}
+	}
+	return false, ""
+}
+
+func processCPU() time.Duration {
+	var ru syscall.Rusage
+	if syscall.Getrusage(syscall.RUSAGE_SELF, &ru) != nil {
+		return 0
+	}
+	return time.Duration(ru.Utime.Nano() + ru.Stime.Nano())
 }
 
 type Stats struct {
@@ -192,7 +281,14 @@ func Explore(cfg Config, body func(*Ctx)) Stats {
 			mu.Unlock()
 
 			c := &Ctx{prefix: prefix}
+			var finished chan struct{}
+			if cfg.StuckAfter > 0 && cfg.OnStuck != nil {
+				finished = Watch(c, cfg.StuckAfter, cfg.OnStuck)
+			}
 			func() {
+				if finished != nil {
+					defer close(finished)
+				}
 				defer func() {
 					if e := recover(); e != nil {
 						if ne, ok := e.(NondetError); ok {
